@@ -119,7 +119,7 @@ func arrayWeights() map[string]int {
 	return map[string]int{
 		"a.append": 14, "a.insert": 14, "a.set": 10, "a.remove": 12, "a.get": 8, "a.oob": 3,
 		"settype": 1, "count": 2, "popall": 1, "reget": 2,
-		"commit": 4, "dropcache": 2, "reopen": 2, "new": 1, "a.fill": 2, "a.drain": 2, "failstor": 2,
+		"commit": 4, "dropcache": 2, "reopen": 2, "new": 1, "a.fill": 2, "a.drain": 2, "failstor": 2, "probe.removed": 2,
 	}
 }
 
@@ -127,14 +127,14 @@ func mapWeights() map[string]int {
 	return map[string]int{
 		"m.set": 26, "m.remove": 12, "m.get": 8, "m.has": 4,
 		"settype": 1, "count": 2, "popall": 1, "reget": 2,
-		"commit": 4, "dropcache": 2, "reopen": 2, "new": 1, "m.fill": 2, "m.drain": 2, "failstor": 2,
+		"commit": 4, "dropcache": 2, "reopen": 2, "new": 1, "m.fill": 2, "m.drain": 2, "failstor": 2, "probe.removed": 2,
 	}
 }
 
 func init() {
 	stdProp(&PropSpec{
 		ID: "C01", Level: "exploration",
-		Verdict: []string{"res.", "panic", "reopen", "rootid", "valueid", "nested.get", "deep.", "reject.category"},
+		Verdict: []string{"res.", "panic", "reopen", "rootid", "valueid", "nested.get", "deep.", "reject.category", "probe."},
 		Rule: "seeded array histories (append/insert/set/remove/get/out-of-range/set-type/pop-all, nested and large values) at swarm slab sizes with commit/drop-cache/reopen interleaved; " +
 			"non-trivial = some array spanned >= 3 slabs and the history contains at least one insert, one overwrite and one removal; distinct by trace hash",
 	}, stdHooks{
@@ -157,7 +157,7 @@ func init() {
 
 	stdProp(&PropSpec{
 		ID: "C02", Level: "exploration",
-		Verdict: []string{"res.", "panic", "reopen", "rootid", "valueid", "nested.get", "deep.", "reject.category"},
+		Verdict: []string{"res.", "panic", "reopen", "rootid", "valueid", "nested.get", "deep.", "reject.category", "probe."},
 		Rule: "seeded map histories (set new/existing, remove present/absent, get, has, set-type, pop-all; keys from a per-run universe incl. keys above the key inline limit; nested and large values) " +
 			"at swarm slab sizes with commit/drop-cache/reopen interleaved; non-trivial = some map spanned >= 3 slabs and the history contains an update, a removal of a present key and a lookup of an absent key; distinct by trace hash",
 	}, stdHooks{
